@@ -225,6 +225,15 @@ class ExplorerScriptSsbDecompiler:
         #       Might need this more flexible.
         self.smb.add_opcode(op_offset, self._line_number, self.indent * NUMBER_OF_SPACES_PER_INDENT)
 
+    def source_map_add_opcode_for_edge(self, op_offset: int) -> None:
+        """
+        Like source_map_add_opcode, for statements that are written for an edge of an operation (break_loop,
+        continue). If the operation itself was already written (the header of an if), it keeps its entry.
+        """
+        assert self.smb is not None
+        if not self.smb.has_opcode(op_offset):
+            self.source_map_add_opcode(op_offset)
+
     def source_map_add_opcode_in_current_line(self, op_offset: int) -> None:
         """
         Has to be called BEFORE writing an opcode that continues the current line after one space
